@@ -207,7 +207,7 @@ def c15_check(prop, tier, seed, replay):
         drift = []
         expect_writers = {"m": {"Set", "Reset"}, "p": {"PrefixFor", "Reset"}, "a": {"PrefixFor", "Reset"}}
         for nm, fs_ in expect_writers.items():
-            got = {w["func"] for w in (mon.get(nm, {}).get("writes") or [])}
+            got = {w["func"] for w in (mon.get(nm, {}).get("writes") or []) if w["kind"] != "methodcall"}
             if got != fs_:
                 drift.append("internal/monitor.%s is written by %s, the model assumes %s" % (nm, sorted(got), sorted(fs_)))
         es = ", ".join('[name |-> "%s", access |-> "%s"]' % (n, a) for n, a, _ in extra)
